@@ -16,3 +16,44 @@ Theorem C05_objectives_agree : stmt_objectives_agree.
 Proof. exact objectives_agree_ok. Qed.
 Theorem C05_scale_objective : stmt_scale_objective.
 Proof. exact scale_objective_ok. Qed.
+
+(** Permuting the variables / the constraint rows (hence: permuting rows inside a cone,
+    reordering cones, splitting or merging nonnegative cones, which are row permutations
+    that respect the cone structure) is a bijection between the points of the two
+    formulations that preserves both objectives and maps the residuals entry to entry. *)
+From Coq Require Import List Permutation.
+Require Import Clarabel.Cross.Perm.
+
+Theorem C05_perm_vars_pobj :
+  forall (n : nat) (P : mat) (q : vec) (p : list nat), Permutation p (seq 0 n) ->
+  forall x : vec, pobj n (Pv P p) (qv q p) (xv p x) = pobj n P q x.
+Proof. exact perm_vars_pobj. Qed.
+Theorem C05_perm_vars_dobj :
+  forall (n m : nat) (P : mat) (b : vec) (p : list nat), Permutation p (seq 0 n) ->
+  forall x z : vec, dobj n m (Pv P p) b (xv p x) z = dobj n m P b x z.
+Proof. exact perm_vars_dobj. Qed.
+Theorem C05_perm_vars_rprim :
+  forall (n : nat) (A : mat) (b : vec) (p : list nat), Permutation p (seq 0 n) ->
+  forall (x s : vec) (i : nat), rprim n (Av A p) b (xv p x) s i = rprim n A b x s i.
+Proof. exact perm_vars_rprim. Qed.
+Theorem C05_perm_vars_rdual :
+  forall (n m : nat) (P A : mat) (q : vec) (p : list nat), Permutation p (seq 0 n) ->
+  forall (x z : vec) (j : nat),
+    rdual n m (Pv P p) (Av A p) (qv q p) (xv p x) z j = rdual n m P A q x z (nth j p 0%nat).
+Proof. exact perm_vars_rdual. Qed.
+Theorem C05_perm_rows_rprim :
+  forall (n : nat) (A : mat) (b : vec) (r : list nat) (x s : vec) (i : nat),
+    rprim n (Ar A r) (br b r) x (rowv r s) i = rprim n A b x s (nth i r 0%nat).
+Proof. exact perm_rows_rprim. Qed.
+Theorem C05_perm_rows_rdual :
+  forall (n m : nat) (P A : mat) (q : vec) (r : list nat), Permutation r (seq 0 m) ->
+  forall (x z : vec) (j : nat), rdual n m P (Ar A r) q x (rowv r z) j = rdual n m P A q x z j.
+Proof. exact perm_rows_rdual. Qed.
+Theorem C05_perm_rows_dobj :
+  forall (n m : nat) (P : mat) (b : vec) (r : list nat), Permutation r (seq 0 m) ->
+  forall x z : vec, dobj n m P (br b r) x (rowv r z) = dobj n m P b x z.
+Proof. exact perm_rows_dobj. Qed.
+Theorem C05_perm_rows_pairing :
+  forall (m : nat) (r : list nat), Permutation r (seq 0 m) ->
+  forall s z : vec, dot m (rowv r s) (rowv r z) = dot m s z.
+Proof. exact perm_rows_pairing. Qed.
